@@ -102,7 +102,13 @@ func runCheck(spec *Spec, o *runOpts) int {
 		}
 		if !o.noNative {
 			nval, problems := validateAgainstNative(p, u, results, o.tier, o)
-			fmt.Printf("   engine-vs-native differential: %d concrete traces agree\n", nval)
+			nfull := 0
+			for _, r := range results {
+				if r.unit == u {
+					nfull += r.Stats.ValidatedFull
+				}
+			}
+			fmt.Printf("   engine-vs-native differential: %d concrete traces agree (%d ran to completion, the rest stopped at the same assumption)\n", nval, nfull)
 			for _, pr := range problems {
 				inconclusive = append(inconclusive, "translator validation: "+pr)
 			}
@@ -289,7 +295,7 @@ func writeEvidence(spec *Spec, o *runOpts, loadS float64, results []*HarnessResu
 		perH = append(perH, map[string]interface{}{
 			"harness": r.Func, "params": r.Params, "paths": st.Paths, "paths_completed": st.PathsDone, "paths_pruned_by_assume": st.PathsAssume,
 			"assert_checks": st.Asserts, "assert_checks_constant": st.AssertsConst, "queries": r.Solver.Queries, "solver_s": round2(r.Solver.Sec), "wall_s": round2(r.WallSec),
-			"ssa_steps": st.Steps, "violations": len(st.Violations), "traces_validated": st.Validated,
+			"ssa_steps": st.Steps, "violations": len(st.Violations), "traces_validated": st.Validated, "traces_validated_to_completion": st.ValidatedFull,
 		})
 	}
 	if len(samples) == 0 {
